@@ -204,6 +204,10 @@ func msgReader(id, typ string) xml.TokenReader {
 
 var errBoom = errors.New("boom")
 
+type emptyReader struct{}
+
+func (emptyReader) Token() (xml.Token, error) { return nil, io.EOF }
+
 // APIs of the send family (all reach func send) that do not wait for a reply.
 var sendAPIs = []string{"Send", "SendElement", "SendMessage", "SendMessageElement", "EncodeMessage", "EncodeMessageElement",
 	"SendIQ", "SendIQElement", "EncodeIQ", "EncodeIQElement", "SendPresence", "SendPresenceElement", "EncodePresence", "EncodePresenceElement"}
@@ -232,7 +236,7 @@ func (r *rig) call(a Actor, idx int, deadline time.Time) error {
 	case "encodenf":
 		return s.Encode(ctx, writerTo{id: id})
 	case "encodeelement":
-		return s.EncodeElement(ctx, struct{}{}, xml.StartElement{Name: xml.Name{Local: "message"}, Attr: []xml.Attr{{Name: xml.Name{Local: "id"}, Value: id}}})
+		return s.EncodeElement(ctx, msgValue{ID: id}, xml.StartElement{Name: xml.Name{Local: "message"}, Attr: []xml.Attr{{Name: xml.Name{Local: "id"}, Value: id}}})
 	case "tokenwriter":
 		w := s.TokenWriter()
 		start := xml.StartElement{Name: xml.Name{Local: "message"}, Attr: []xml.Attr{{Name: xml.Name{Local: "id"}, Value: id}}}
@@ -259,7 +263,7 @@ func (r *rig) sendAPI(api, id string) error {
 	case "", "Send":
 		return s.Send(ctx, msgReader(id, ""))
 	case "SendElement":
-		return s.SendElement(ctx, nil, xml.StartElement{Name: xml.Name{Local: "message"}, Attr: []xml.Attr{{Name: xml.Name{Local: "id"}, Value: id}}})
+		return s.SendElement(ctx, emptyReader{}, xml.StartElement{Name: xml.Name{Local: "message"}, Attr: []xml.Attr{{Name: xml.Name{Local: "id"}, Value: id}}})
 	case "SendMessage":
 		_, err = s.SendMessage(ctx, msgReader(id, "error"))
 	case "SendMessageElement":
